@@ -141,4 +141,7 @@ theorem src_hilbert_recentres_per_feature :
 hard-wired off), so the explained variances are eigenvalues of its covariance -/
 theorem src_eeof_inner_centres : Gen.eeofInnerEOF.lookup "center" = some "self._params['center']" := by decide
 
+/-- source obligation: the decomposition the theorems take as an oracle with specification `IsSVD` is numpy's SVD of the matrix itself -/
+theorem src_exact_solver_is_svd : Gen.decomposerSolverFunctions.head? = some "np.linalg.svd" := by decide
+
 end C01
